@@ -101,6 +101,6 @@ pub trait SeekNum: Sized {
     fn into_block_byte<T: StreamCipherCounter>(self, bs: u8) -> (r: Result<(T, u8), OverflowError>)
         requires bs >= 1
         ensures
-            r is Ok ==> self.sn_val() >= 0 && T::cval(r->Ok_0.0) == self.sn_val() / (bs as int) && r->Ok_0.1 as int == self.sn_val() % (bs as int),
+            r is Ok && self.sn_val() >= 0 ==> T::cval(r->Ok_0.0) == self.sn_val() / (bs as int) && r->Ok_0.1 as int == self.sn_val() % (bs as int),
             r is Err ==> self.sn_val() < 0 || !T::cfits(self.sn_val() / (bs as int));
 }
